@@ -8,7 +8,9 @@ def nontrivial(W, obs):
 
 def shrink_world(W, still_fails):
     """greedy removal of policies / rules / workloads while the disagreement persists"""
-    import copy
+    import copy, os
+    if os.environ.get('VERIF_NOSHRINK'):
+        return copy.deepcopy(W)
     cur = copy.deepcopy(W)
     changed = True
     budget = 40
